@@ -1,6 +1,7 @@
 import ChiaModel.Lemmas.BundleInv
 import ChiaModel.Lemmas.BundleRules
 import ChiaModel.Lemmas.MsgKey
+import ChiaModel.Lemmas.ArgGrammar
 /-
 C01 — spend conditions are accepted, rejected and summarised exactly per the rules.
 Theorems about the executable model of `parse_spends` (Model/Conditions.lean), which is tied to the
@@ -12,6 +13,11 @@ Second part (end of the file): the refinement to the order-free declarative spec
 `condLoop_refines`, `C01_refines`, `C01_rejects`.  What the specification still takes from the model
 (argument grammar table `parseArgs`, mempool eligibility flags inside the fold) is said at `C01_refines`;
 the closed forms of the flags follow it.
+Third part (end of the file): the argument grammar as an independent data table (`Spec/ArgGrammar.lean`,
+written from DESIGN.md Appendix A.1 and the Rust source): `parseArgs_table` (the model's `parseArgs` = the
+table-driven `specParseArgs`, all trees / opcode numbers / flags), `C01_refines_grammar` / `C01_rejects_grammar`
+(the refinement with the parse written over the table), `message_opcode_inversion`, the value-level reading of
+the integer classes, sanity theorems about the table and its behaviour at the boundaries.
 -/
 namespace ChiaModel.C01
 open ChiaModel ChiaModel.Cond
@@ -500,19 +506,311 @@ example : ¬ KeyForm [5, 1, 2] := by
 
 /-! ### open -/
 
-/-- OPEN (not proved): the converse reading of `message_keys_wellformed` — a parsed condition is a
-SEND_MESSAGE / RECEIVE_MESSAGE condition only if its opcode is 66 / 67 (true by inspection of `parseArgs`,
-every other branch returns another constructor; the proof is a 35-branch case analysis that was not
-carried out).  With it, `message_keys_wellformed` would speak about every message condition of
+/-- FORMERLY OPEN, now proved (`message_opcode_inversion` below): the converse reading of
+`message_keys_wellformed` — a parsed condition is a SEND_MESSAGE / RECEIVE_MESSAGE condition only if its
+opcode is 66 / 67.  With it, `message_keys_wellformed_all` speaks about every message condition of
 `itemConds items` rather than about the two opcodes.
 
-Also not restated independently of the model (and therefore not a theorem here): the argument grammar of
-the individual conditions, i.e. Appendix A's table for `parseArgs` (argument shapes, integer classes,
-STRICT_ARGS_COUNT terminators).  `C01_refines` uses the model's `parseArgs` through `parseAll`; that table
-is tied to the Rust code by the correspondence check (exhaustive single-condition sweep). -/
+The second formerly open item — the argument grammar of the individual conditions (Appendix A's table for
+`parseArgs`: argument shapes, integer classes, STRICT_ARGS_COUNT terminators) restated independently of the
+model — is closed by `parseArgs_table` and `C01_refines_grammar` below. -/
 def open_message_opcode_inversion : Prop :=
   ∀ (c : Sexp) (op flags : Nat) (cva : Cond), parseArgs c op flags = .ok cva →
     ((∃ m d g, cva = .sendMessage m d g) → op = Gen.opSendMessage) ∧
     ((∃ src m g, cva = .receiveMessage src m g) → op = Gen.opReceiveMessage)
+
+end ChiaModel.C01
+
+/-! ## the argument grammar as a table (Appendix A.1), and the refinement over it -/
+
+namespace ChiaModel.C01
+open ChiaModel ChiaModel.Cond ChiaModel.Rules ChiaModel.Grammar
+
+/-- **The argument parser is the rule table.**  For every tree `c`, every opcode number `op` (recognised
+or not) and every flag set, the model's `parseArgs` (the mirror of `parse_args`) returns exactly what the
+table-driven specification `specParseArgs` of `Spec/ArgGrammar.lean` prescribes: the data table `grammar`
+(required argument kinds in order + tail rule per opcode), one decoding function per argument kind
+(`argValue`: exact lengths for hashes and keys, ≤ 1024 bytes for messages, the integer classes
+canon / neg / over / bad with a per-kind policy for neg and over, the message mode 0 … 63), the tail rules
+(`tailRule`: exact, ignored, the CREATE_COIN memo / hint rule, the mode-selected end-point fields of
+SEND / RECEIVE_MESSAGE), the strict-terminator rule stated once (`terminatorOk`), NO_UNKNOWN_CONDS for the
+soft-fork class, and the table of constructors (`build`). -/
+theorem parseArgs_table (c : Sexp) (op flags : Nat) : parseArgs c op flags = specParseArgs c op flags :=
+  parseArgs_eq_spec c op flags
+
+/-- the element-wise parse of a condition list and the parse of a generator output over the table-driven
+grammar are the ones the refinement theorem `C01_refines` uses -/
+theorem parse_table (flags : Nat) :
+    (∀ cs, parseAll flags cs = specParseAll flags cs) ∧ (∀ t, parseBundle flags t = specParseBundle flags t) :=
+  ⟨parseAll_eq_spec flags, parseBundle_eq_spec flags⟩
+
+/-- **C01, refinement, over the table-driven argument grammar.**  The statement of `C01_refines` with the
+parse of the generator output written with the rule table: `specParseBundle` = list termination and tuple
+shape as before, every condition `(opcode . args)` recognised by `parseOpcode` (`parseOpcode_spec`) and its
+arguments parsed by `specParseArgs`.  With this, the only things the specification still takes from the
+model are (b) the mempool eligibility flags (closed forms proved above) and (c) the cost table in list form
+(C04); the argument grammar — item (a) of `C01_refines` — is the independent table. -/
+theorem C01_refines_grammar (env : Env) (sigOk : List (Bytes × Bytes) → Bool) (t : Sexp) (L cc : Nat) (b : Bundle) (st : PState) :
+    parseSpends env sigOk t L cc = .ok (b, st) ↔
+      ∃ ps, specParseBundle env.flags t = some ps ∧ BundleAccepts env sigOk L cc ps ∧ (b, st) = bundleSummary env cc ps := by
+  rw [← parseBundle_eq_spec]
+  exact C01_refines env sigOk t L cc b st
+
+/-- **C01, rejection, over the table-driven argument grammar.** -/
+theorem C01_rejects_grammar (env : Env) (sigOk : List (Bytes × Bytes) → Bool) (t : Sexp) (L cc : Nat) :
+    (∃ e, parseSpends env sigOk t L cc = .error e) ↔
+      ¬ ∃ ps, specParseBundle env.flags t = some ps ∧ BundleAccepts env sigOk L cc ps := by
+  rw [← parseBundle_eq_spec]
+  exact C01_rejects env sigOk t L cc
+
+/-- the per-spend form: the condition loop over the table-driven grammar (`condLoop_refines` with
+`specParseAll`) -/
+theorem condLoop_refines_grammar (env : Env) (t : Sexp) (s : CSt) (hs : FreshSpend s.spend) (hfee : s.ret.reserveFee < 2 ^ 64)
+    (m : Nat) (s' : CSt) (m' : Nat) :
+    condLoop env t s m = .ok (s', m') ↔
+      ∃ cs items, sexpList t = some cs ∧ specParseAll env.flags cs = .ok items ∧
+        totalCost env.flags items ≤ m ∧ m' = m - totalCost env.flags items ∧
+        SpendAccepts env (Rules.attrsOf s.spend) s.ret.reserveFee s.countdown (itemConds items) ∧
+        s' = wrapF (allBits env.mempool s.counter items) (spendResult env s (itemConds items)) (totalCount items)
+              (totalCost env.flags items) := by
+  simp only [← parseAll_eq_spec]
+  exact condLoop_refines env t s hs hfee m s' m'
+
+/-- **Only opcodes 66 / 67 parse to message conditions** (formerly the open item
+`open_message_opcode_inversion`): by the table of constructors, the entry of no other opcode builds a
+`sendMessage` resp. `receiveMessage`. -/
+theorem message_opcode_inversion : open_message_opcode_inversion := by
+  intro c op flags cva h
+  rw [parseArgs_eq_spec] at h
+  obtain ⟨kinds, tail, vs, _, hb⟩ := specParseArgs_ok h
+  constructor
+  · rintro ⟨m, d, g, rfl⟩; exact build_send hb
+  · rintro ⟨src, m, g, rfl⟩; exact build_receive hb
+
+/-- hence every message condition that any opcode parses to carries a well-formed end-point key
+(`message_keys_wellformed`, now for every parsed condition rather than per opcode) -/
+theorem message_keys_wellformed_all (c : Sexp) (op flags : Nat) (cva : Cond) (h : parseArgs c op flags = .ok cva) :
+    (∀ m d g, cva = .sendMessage m d g → KeyForm d) ∧ (∀ src m g, cva = .receiveMessage src m g → KeyForm src) := by
+  obtain ⟨h1, h2⟩ := message_opcode_inversion c op flags cva h
+  constructor
+  · intro m d g e
+    have hop := h1 ⟨m, d, g, e⟩
+    subst hop
+    obtain ⟨m', d', g', e', hk⟩ := message_keys_wellformed.2.2.1 c flags cva h
+    rw [e] at e'; injection e' with _ e2 _; subst e2; exact hk
+  · intro src m g e
+    have hop := h2 ⟨src, m, g, e⟩
+    subst hop
+    obtain ⟨s', m', g', e', hk⟩ := message_keys_wellformed.2.2.2 c flags cva h
+    rw [e] at e'; injection e' with e1 _ _; subst e1; exact hk
+
+/-- only opcode 51 parses to a CREATE_COIN condition (same finite check) -/
+theorem createCoin_opcode_inversion (c : Sexp) (op flags : Nat) (ph : Bytes) (a : Nat) (hint : Option Bytes)
+    (h : parseArgs c op flags = .ok (.createCoin ph a hint)) : op = Gen.opCreateCoin := by
+  rw [parseArgs_eq_spec] at h
+  obtain ⟨_, _, vs, _, hb⟩ := specParseArgs_ok h
+  exact build_createCoin hb
+
+/-! ### the integer classes, value level -/
+
+/-- **Integer arguments, value level** (atoms that are byte strings, widths up to 8 bytes): an atom is in
+class `canon v` iff it is THE canonical CLVM encoding `canonNat v` of a value `v < 256^w` (so zero is the empty
+atom only, nothing is truncated, and a redundant leading zero is never accepted); `neg` iff its two's-complement
+value is negative; `over` iff it is non-negative and canonical with value ≥ 256^w; `bad` iff it is non-negative
+with a redundant leading zero byte.  The four classes are the four results of `sanitize_uint`. -/
+theorem int_classes_spec (w : Nat) (hw : w ≤ 8) (b : Bytes) (hb : isBytes b) :
+    (∀ v, intClass w b = .canon v ↔ b = canonNat v ∧ v < 256 ^ w) ∧
+    (intClass w b = .neg ↔ intOfBytes b < 0) ∧
+    (intClass w b = .over ↔ 0 ≤ intOfBytes b ∧ Minimal b ∧ 256 ^ w ≤ beVal b) ∧
+    (intClass w b = .bad ↔ 0 ≤ intOfBytes b ∧ ¬ Minimal b) ∧
+    sanitizeUint b w = classToSan (intClass w b) := by
+  have hneg : headGe128 b = false ↔ 0 ≤ intOfBytes b := by
+    have := headGe128_iff_negative b hb
+    cases hh : headGe128 b <;> simp [hh] at this ⊢ <;> omega
+  refine ⟨fun v => ⟨fun h => intClass_canon_canonNat w hw b hb v h, ?_⟩, ?_, ?_, ?_, sanitizeUint_eq_class b w⟩
+  · rintro ⟨rfl, hv⟩; exact intClass_canonNat w hw v hv
+  · rw [intClass_neg_iff, headGe128_iff_negative b hb]
+  · rw [intClass_over_iff w b hb, hneg]
+  · rw [intClass_bad_iff, hneg]
+
+/-! ### sanity of the table itself (finite checks) -/
+
+/-- **The opcodes with a grammar entry are exactly the recognised ones**: the one-byte whitelist extracted
+from `parse_opcode` (each exactly once, in the table's order) and every two-byte number 256 … 65535; no
+other number has an entry. -/
+theorem grammar_domain :
+    oneByteTable.map Prod.fst = Gen.opcodeWhitelist ∧
+    (List.range 256).filter (fun op => (grammar op).isSome) = Gen.opcodeWhitelist ∧
+    (∀ op, (grammar op).isSome = true ↔ op ∈ Gen.opcodeWhitelist ∨ (256 ≤ op ∧ op ≤ 65535)) := by
+  refine ⟨by decide, by decide +kernel, fun op => ?_⟩
+  by_cases hr : 256 ≤ op ∧ op ≤ 65535
+  · simp [grammar, hr]
+  · by_cases hw : op ∈ Gen.opcodeWhitelist
+    · have : ∀ k ∈ Gen.opcodeWhitelist, (grammar k).isSome = true := by decide
+      simp [this op hw, hw]
+    · have hg : grammar op = none := by
+        simp only [grammar, if_neg hr]
+        exact lookup_none op _ (by rw [table_keys]; exact hw)
+      simp [hg, hw, hr]
+
+/-- every AGG_SIG_* opcode takes (public key of 48 bytes, message of ≤ 1024 bytes) and nothing else -/
+theorem aggSig_grammar :
+    ∀ op ∈ [Gen.opAggSigParent, Gen.opAggSigPuzzle, Gen.opAggSigAmount, Gen.opAggSigPuzzleAmount,
+            Gen.opAggSigParentAmount, Gen.opAggSigParentPuzzle, Gen.opAggSigUnsafe, Gen.opAggSigMe],
+      grammar op = some ([.pubkey48, .announceMsg], .exact) := by decide
+
+/-- the opcodes grouped by their grammar (each list is the complete set of one-byte opcodes with that entry) -/
+theorem grammar_groups :
+    Gen.opcodeWhitelist.filter (fun op => grammar op == some ([.pubkey48, .announceMsg], .exact)) = [43, 44, 45, 46, 47, 48, 49, 50] ∧
+    Gen.opcodeWhitelist.filter (fun op => grammar op == some ([.hash32], .exact)) = [61, 63, 64, 65, 70, 71, 72] ∧
+    Gen.opcodeWhitelist.filter (fun op => grammar op == some ([.announceMsg], .exact)) = [60, 62] ∧
+    Gen.opcodeWhitelist.filter (fun op => grammar op == some ([amountU64], .exact)) = [52, 73, 74] ∧
+    Gen.opcodeWhitelist.filter (fun op => grammar op == some ([.int 4 .reject .reject], .exact)) = [75] ∧
+    Gen.opcodeWhitelist.filter (fun op => grammar op == some ([afterSecondsU64], .exact)) = [80, 81] ∧
+    Gen.opcodeWhitelist.filter (fun op => grammar op == some ([afterHeightU32], .exact)) = [82, 83] ∧
+    Gen.opcodeWhitelist.filter (fun op => grammar op == some ([beforeSecondsU64], .exact)) = [84, 85] ∧
+    Gen.opcodeWhitelist.filter (fun op => grammar op == some ([beforeHeightU32], .exact)) = [86, 87] ∧
+    grammar Gen.opCreateCoin = some ([.hash32, amountU64], .memos) ∧
+    grammar Gen.opSendMessage = some ([.messageMode, .announceMsg], .endpoint .low) ∧
+    grammar Gen.opReceiveMessage = some ([.messageMode, .announceMsg], .endpoint .high) ∧
+    grammar Gen.opAssertEphemeral = some ([], .exact) ∧
+    grammar Gen.opRemark = some ([], .ignored) ∧
+    grammar Gen.opSoftfork = some ([costU32], .ignored) := by decide
+
+/-- STRICT_ARGS_COUNT constrains every one-byte opcode except REMARK and SOFTFORK; NO_UNKNOWN_CONDS rejects,
+of the one-byte opcodes, SOFTFORK only -/
+theorem flag_exemptions :
+    Gen.opcodeWhitelist.filter (fun op => (grammar op).map (·.2) == some Tail.ignored) = [Gen.opRemark, Gen.opSoftfork] ∧
+    Gen.opcodeWhitelist.filter unknownClass = [Gen.opSoftfork] := by decide
+
+/-- the end-point field table is the bit rule of `SpendId::parse`: selector 7 is the coin id; otherwise parent id
+if bit 4, puzzle hash if bit 2, amount if bit 1, in that order -/
+theorem endpointFields_bits :
+    ∀ m, m < 8 → endpointFields.getD m [] =
+      if m = 7 then [.hash32]
+      else (if m / 4 % 2 = 1 then [.hash32] else []) ++ (if m / 2 % 2 = 1 then [.hash32] else []) ++
+           (if m % 2 = 1 then [amountU64] else []) := by decide
+
+/-- every opcode with a grammar entry yields a condition for well-kinded values: for each one-byte opcode the
+table of constructors accepts the value shapes its grammar produces (so `build` never rejects an argument list
+that the grammar accepted; checked on representative values, the shapes being all that `build` inspects) -/
+theorem build_total :
+    ∀ op ∈ Gen.opcodeWhitelist, ∀ kt, grammar op = some kt →
+      (build op (kt.1.map (fun k => match k with
+          | .int _ _ _ => Val.int 0 | .messageMode => Val.int 0 | _ => Val.bytes []) ++
+        (match kt.2 with | .memos => [Val.hint none] | .endpoint _ => [Val.key []] | _ => []))).isSome = true := by
+  decide
+
+/-! ### the table at its boundaries (concrete argument lists) -/
+
+-- `tableVerdict op flags args terminator` (Lemmas/ArgGrammar.lean): the verdict of `specParseArgs` on the argument
+-- list `args` ending in `terminator` (default NIL); `bytesN n x`: the atom of `n` bytes `x` (default 7);
+-- `STRICT` = STRICT_ARGS_COUNT
+
+-- hash32: exactly 32 bytes
+example : tableVerdict 70 0 [bytesN 32] = some (.assertMyCoinId (List.replicate 32 7)) := by decide
+example : tableVerdict 70 0 [bytesN 33] = none := by decide
+example : tableVerdict 70 0 [bytesN 31] = none := by decide
+example : tableVerdict 70 0 [bytesN 0] = none := by decide
+example : tableVerdict 70 0 [.pair (bytesN 32) (.atom [])] = none := by decide      -- a pair is never an argument
+example : tableVerdict 70 0 [] = none := by decide                                    -- missing argument
+-- pubkey48 (length only) and announceMsg (≤ 1024, empty allowed)
+example : (tableVerdict 50 0 [bytesN 48, bytesN 1024]).isSome = true := by decide +kernel
+example : tableVerdict 50 0 [bytesN 48, bytesN 1025] = none := by decide +kernel
+example : tableVerdict 50 0 [bytesN 48, bytesN 0] = some (.aggSig 50 (List.replicate 48 7) []) := by decide
+example : tableVerdict 50 0 [bytesN 47, bytesN 3] = none := by decide
+example : tableVerdict 50 0 [bytesN 0, bytesN 3] = none := by decide                 -- zero-length public key
+example : tableVerdict 50 0 [bytesN 48] = none := by decide                          -- message missing
+-- amounts: canonical u64; 2^64 − 1 needs a leading 00, 2^64 is over, 00 / 00 01 are bad, ff is negative
+example : tableVerdict 52 0 [.atom []] = some (.reserveFee 0) := by decide
+example : tableVerdict 52 0 [.atom [0, 255, 255, 255, 255, 255, 255, 255, 255]] = some (.reserveFee (2 ^ 64 - 1)) := by decide
+example : tableVerdict 52 0 [.atom [1, 0, 0, 0, 0, 0, 0, 0, 0]] = none := by decide
+example : tableVerdict 52 0 [.atom [0]] = none := by decide
+example : tableVerdict 52 0 [.atom [0, 1]] = none := by decide
+example : tableVerdict 52 0 [.atom [255]] = none := by decide
+example : tableVerdict 73 0 [.atom [0, 128]] = some (.assertMyAmount 128) := by decide
+-- heights are u32: 2^32 − 1 accepted, 2^32 is over
+example : tableVerdict 75 0 [.atom [0, 255, 255, 255, 255]] = some (.assertMyBirthHeight (2 ^ 32 - 1)) := by decide
+example : tableVerdict 75 0 [.atom [1, 0, 0, 0, 0]] = none := by decide
+example : tableVerdict 75 0 [.atom [128]] = none := by decide
+-- "after" locks: negative ⇒ vacuous (relative kinds keep the "not ephemeral" marker), too large ⇒ reject
+example : tableVerdict 82 0 [.atom [255]] = some .skipRelativeCondition := by decide
+example : tableVerdict 83 0 [.atom [255]] = some .skip := by decide
+example : tableVerdict 80 0 [.atom [128, 0, 0]] = some .skipRelativeCondition := by decide
+example : tableVerdict 81 0 [.atom [255, 255]] = some .skip := by decide             -- no canonicity test on negatives
+example : tableVerdict 82 0 [.atom [1, 0, 0, 0, 0]] = none := by decide
+example : tableVerdict 82 0 [.atom [0, 5]] = none := by decide                        -- redundant zero: always reject
+example : tableVerdict 82 0 [.atom [5]] = some (.assertHeightRelative 5) := by decide
+-- "before" locks: negative ⇒ reject, too large ⇒ vacuous
+example : tableVerdict 86 0 [.atom [255]] = none := by decide
+example : tableVerdict 87 0 [.atom [255]] = none := by decide
+example : tableVerdict 86 0 [.atom [1, 0, 0, 0, 0]] = some .skipRelativeCondition := by decide
+example : tableVerdict 87 0 [.atom [1, 0, 0, 0, 0]] = some .skip := by decide
+example : tableVerdict 84 0 [.atom [1, 0, 0, 0, 0]] = some (.assertBeforeSecondsRelative (2 ^ 32)) := by decide
+example : tableVerdict 85 0 [.atom [1, 0, 0, 0, 0, 0, 0, 0, 0]] = some .skip := by decide
+-- extra argument / improper terminator: ignored without STRICT_ARGS_COUNT, rejected with it
+example : tableVerdict 70 0 [bytesN 32, bytesN 1] = some (.assertMyCoinId (List.replicate 32 7)) := by decide
+example : tableVerdict 70 STRICT [bytesN 32, bytesN 1] = none := by decide
+example : tableVerdict 70 STRICT [bytesN 32] = some (.assertMyCoinId (List.replicate 32 7)) := by decide
+example : tableVerdict 70 0 [bytesN 32] (.atom [1]) = some (.assertMyCoinId (List.replicate 32 7)) := by decide
+example : tableVerdict 70 STRICT [bytesN 32] (.atom [1]) = none := by decide
+example : (tableVerdict 49 0 [bytesN 48, bytesN 3, bytesN 1]).isSome = true := by decide
+example : tableVerdict 49 STRICT [bytesN 48, bytesN 3, bytesN 1] = none := by decide
+example : tableVerdict 76 0 [bytesN 1] = some .assertEphemeral := by decide
+example : tableVerdict 76 STRICT [bytesN 1] = none := by decide
+example : tableVerdict 76 STRICT [] = some .assertEphemeral := by decide
+-- REMARK and SOFTFORK are exempt from the terminator rule; SOFTFORK and two-byte opcodes fall to NO_UNKNOWN_CONDS
+example : tableVerdict 1 STRICT [bytesN 1, bytesN 2] (.atom [9]) = some .skip := by decide
+example : tableVerdict 90 STRICT [.atom [3], bytesN 2] = some (.softfork 30000) := by decide
+example : tableVerdict 90 0 [.atom [1, 0, 0, 0, 0]] = none := by decide
+example : tableVerdict 90 Gen.flagNoUnknownConds [.atom [3]] = none := by decide
+example : tableVerdict 0x0102 STRICT [bytesN 1] (.atom [9]) = some (.softfork 112) := by decide
+example : tableVerdict 0x0102 Gen.flagNoUnknownConds [] = none := by decide
+example : tableVerdict 2 0 [] = none := by decide                                     -- no entry
+example : tableVerdict 65536 0 [] = none := by decide
+-- CREATE_COIN: the memo / hint rule
+example : tableVerdict 51 STRICT [bytesN 32, .atom [5]] = some (.createCoin (List.replicate 32 7) 5 none) := by decide
+example : tableVerdict 51 STRICT [bytesN 32, .atom [5], .pair (bytesN 32 9) (.atom [])]
+    = some (.createCoin (List.replicate 32 7) 5 (some (List.replicate 32 9))) := by decide
+example : tableVerdict 51 STRICT [bytesN 32, .atom [5], .pair (bytesN 33 9) (.atom [])]
+    = some (.createCoin (List.replicate 32 7) 5 none) := by decide                    -- 33 bytes: no hint, not an error
+example : tableVerdict 51 STRICT [bytesN 32, .atom [5], .pair (bytesN 0) (.atom [])]
+    = some (.createCoin (List.replicate 32 7) 5 none) := by decide                    -- empty first memo: no hint
+example : tableVerdict 51 STRICT [bytesN 32, .atom [5], .pair (.pair (bytesN 1) (.atom [])) (.atom [])]
+    = some (.createCoin (List.replicate 32 7) 5 none) := by decide                    -- a pair as first memo: no hint
+example : tableVerdict 51 STRICT [bytesN 32, .atom [5], bytesN 32 9]
+    = some (.createCoin (List.replicate 32 7) 5 none) := by decide                    -- memos not a list: no hint
+example : tableVerdict 51 STRICT [bytesN 32, .atom [5], .pair (bytesN 1 9) (bytesN 4)]
+    = some (.createCoin (List.replicate 32 7) 5 (some [9])) := by decide              -- only the first memo is looked at
+example : tableVerdict 51 0 [bytesN 32, .atom [5], .pair (bytesN 32 9) (.atom []), bytesN 1]
+    = some (.createCoin (List.replicate 32 7) 5 (some (List.replicate 32 9))) := by decide
+example : tableVerdict 51 STRICT [bytesN 32, .atom [5], .pair (bytesN 32 9) (.atom []), bytesN 1] = none := by decide
+example : tableVerdict 51 0 [bytesN 32, .atom [5]] (.atom [1]) = some (.createCoin (List.replicate 32 7) 5 none) := by decide
+example : tableVerdict 51 STRICT [bytesN 32, .atom [5]] (.atom [1]) = none := by decide
+example : tableVerdict 51 0 [bytesN 32, .atom [1, 0, 0, 0, 0, 0, 0, 0, 0]] = none := by decide
+example : tableVerdict 51 0 [bytesN 32, .atom [255]] = none := by decide
+example : tableVerdict 51 0 [bytesN 33, .atom [5]] = none := by decide
+-- SEND / RECEIVE_MESSAGE: the mode and the end-point fields
+example : tableVerdict 66 STRICT [.atom [], bytesN 3] = some (.sendMessage 0 [0] [7, 7, 7]) := by decide
+example : tableVerdict 66 0 [.atom [0], bytesN 3] = none := by decide                 -- 00 is not the canonical zero
+example : tableVerdict 66 0 [.atom [0x40], bytesN 3] = none := by decide              -- a bit above 0x3f
+example : tableVerdict 66 0 [.atom [0x80], bytesN 3] = none := by decide
+example : tableVerdict 66 0 [.atom [0, 0x3f], bytesN 3] = none := by decide
+example : tableVerdict 66 STRICT [.atom [0x3f], bytesN 3, bytesN 32 1]
+    = some (.sendMessage 7 (7 :: List.replicate 32 1) [7, 7, 7]) := by decide         -- 7 = coin id: ONE field
+example : tableVerdict 67 STRICT [.atom [0x3f], bytesN 3, bytesN 32 1]
+    = some (.receiveMessage (7 :: List.replicate 32 1) 7 [7, 7, 7]) := by decide
+example : tableVerdict 66 STRICT [.atom [0x15], bytesN 3, bytesN 32 1, .atom [5]]
+    = some (.sendMessage 2 (5 :: (List.replicate 32 1 ++ [0, 0, 0, 0, 0, 0, 0, 5])) [7, 7, 7]) := by decide   -- dst = parent + amount
+example : tableVerdict 67 STRICT [.atom [0x15], bytesN 3, bytesN 32 1]
+    = some (.receiveMessage (2 :: List.replicate 32 1) 5 [7, 7, 7]) := by decide      -- src = puzzle hash
+example : tableVerdict 67 STRICT [.atom [0x15], bytesN 3, bytesN 32 1, .atom [5]] = none := by decide
+example : tableVerdict 66 0 [.atom [0x01], bytesN 3, .atom [1, 0, 0, 0, 0, 0, 0, 0, 0]] = none := by decide   -- amount field 2^64
+example : tableVerdict 66 0 [.atom [0x04], bytesN 3, bytesN 31] = none := by decide
+example : tableVerdict 66 0 [.atom [0x04], bytesN 3] = none := by decide              -- field missing
+example : (tableVerdict 66 0 [.atom [0x04], bytesN 1025, bytesN 32]) = none := by decide +kernel
+-- and the model's parser agrees (instances of `parseArgs_table`)
+example : parseArgs (.pair (bytesN 32) (.pair (.atom [5]) (.pair (.pair (bytesN 33 9) (.atom [])) (.atom [])))) 51 STRICT
+    = .ok (.createCoin (List.replicate 32 7) 5 none) := by rw [parseArgs_table]; rfl
 
 end ChiaModel.C01
